@@ -67,9 +67,9 @@ def cases(ctx):
     if not ctx.quick:
         for first in range(18):
             yield "tiny_exhaustive", {"size": 4, "first": first}
-    for i in range(ctx.pick(300, 3200)):
+    for i in range(ctx.pick(900, 32000)):
         yield "generated", {"seed": ctx.subseed("g", i), "max_size": ctx.pick(40, 150)}
-    for i in range(ctx.pick(16, 240)):
+    for i in range(ctx.pick(40, 2400)):
         yield "insitu", {"seed": ctx.subseed("is", i), "algo": ["nsga2", "omopso", "nsga2"][i % 3]}
 
 
